@@ -263,12 +263,12 @@ func (x *Exec) callContract(f *Frame, callee *ssa.Function, con *Contract, args 
 		xenv := x.newEnv(vars, ps, pre)
 		xenv.fnPos = token.NoPos
 		for _, e := range con.XEnsures {
-			x.assumeSpec(ps.reach, e.Expr, xenv, "xensures of "+short+": "+e.Src)
+			x.assumeSpecIn(ps, ps.reach, e.Expr, xenv, "xensures of "+short+": "+e.Src)
 		}
 		for _, e := range con.PanicsIf {
 			pe := *xenv
 			pe.st = pre
-			x.assumeSpec(ps.reach, e.Expr, &pe, "panics_if of "+short+": "+e.Src)
+			x.assumeSpecIn(ps, ps.reach, e.Expr, &pe, "panics_if of "+short+": "+e.Src)
 		}
 		f.panics = append(f.panics, panicState{st: ps, pos: pos, what: "panic in " + short})
 		x.cur.reach = x.b.Def("reach_nopanic", And(x.cur.reach, Not(panicked)))
@@ -590,7 +590,7 @@ func (x *Exec) execAppend(f *Frame, i *ssa.Call) {
 	q := &Expr{Kind: EQuant, Name: "forall", Vars: []QVar{{Name: "j$", Type: "int"}},
 		Args: []*Expr{{Kind: ECall, Name: "$appended", Args: []*Expr{{Kind: EIdent, Name: "j$"}}}}}
 	env := x.newEnv(map[string]TV{"$r": {r, nil}, "$s": {s, nil}, "$t": {t, nil}}, x.cur.clone(), x.entry)
-	x.qhyps = append(x.qhyps, qhyp{mark: x.b.Mark(), guard: x.cur.reach, expr: q, env: env, src: "append elements"})
+	x.addQhyp(x.cur, qhyp{mark: x.b.Mark(), guard: x.cur.reach, expr: q, env: env, src: "append elements"})
 	x.setReg(f, i, r)
 }
 
